@@ -252,6 +252,27 @@ theorem admissible_not_square (n k : Nat) (hk1 : 1 ≤ k) (hk : k < 30) (ha : Ad
   obtain ⟨d, hd⟩ := this
   exact hns d (by rw [hd]; ring)
 
+/-- `Admissible` from the model of what `factor_impl` tests before it dispatches: no small prime
+divides `n` (trial division in `factor`) and `arith::perfect_power(n)` returned `None` (C08 model):
+the exponent 2 is tried first, with the exact floor square root. -/
+theorem admissible_of_guards (n : Nat) (hsmall : ∀ p ∈ smallPrimes, ¬ p ∣ n)
+    (hpp : Ymq.Arith.perfectPower n = some none) : Admissible n := by
+  refine ⟨hsmall, ?_⟩
+  intro s hs
+  unfold Ymq.Arith.perfectPower Ymq.Arith.ppFuel at hpp
+  unfold Ymq.Arith.ppExps at hpp
+  unfold Ymq.Arith.ppTry at hpp
+  have hr : Ymq.Arith.nthRoot n 2 = s := Ymq.Arith.nthRoot_exact n 2 s (by decide) (by rw [hs]; ring)
+  rw [hr] at hpp
+  have : s ^ 2 = n := by rw [hs]; ring
+  rw [if_pos this] at hpp
+  split at hpp
+  · simp at hpp
+  · split at hpp
+    · simp at hpp
+    · split at hpp <;> simp at hpp
+    · simp at hpp
+
 /-- The sieve / relation part of `qsieve` reaches NO panic site, for every `n` and `k` such that
 `n·k` fits a `u64` and is not a perfect square: `isqrt² `, `n * k`, `2 * nsqrt`, `nk - nsqrt²`; every
 `sqrt_mod` and `Dividers::new` of `FBase::new64` and its assertion (C08); the `i64` expressions
